@@ -53,6 +53,10 @@ MUTANTS = [
     ("c20-extendby-uses-box-0", "C20", PY + "PyImathBox.cpp",
      "            boxes[tid].extendBy(points[p]);", "            boxes[0].extendBy(points[p]);",
      "all sub-ranges accumulate into boxes[0]: serially right, a data race when concurrent"),
+    ("c20-readonly-direct-access-ignores-stride", "C20", PY + "PyImathFixedArray.h",
+     "        const T&  operator[] (size_t i) const { return _ptr[i*_stride]; }\n\n      private:\n        const T*  _ptr;\n\n      protected:\n        const size_t  _stride;\n    };\n\n    class WritableDirectAccess",
+     "        const T&  operator[] (size_t i) const { return _ptr[i]; }\n\n      private:\n        const T*  _ptr;\n\n      protected:\n        const size_t  _stride;\n    };\n\n    class WritableDirectAccess",
+     "the read accessor of the vectorised operations ignores the stride: wrong only for strided operands (component views)"),
     ("c20-vectorized-op1-ignores-start", "C20", PY + "PyImathAutovectorize.h",
      None, None, "the first VectorizedOperation1::execute loop starts at 0 instead of start"),
     ("c20-quat-task-shared-scratch", "C20", PY + "PyImathQuat.cpp",
